@@ -32,6 +32,9 @@ def cases(tier, seed):
     bat = common.thin(common.batch_scope(lvl), 4 if tier != "thorough" else 1)
     for sc, c in common.add_algs(bat, lambda c: common.batch_algs(c, lvl)):
         out.append((sc, c))
+    for sc, c in common.add_algs(common.ids_scope(lvl),
+                                 lambda c: common.shipped(c, lvl, "diag")):
+        out.append((sc, c))
     for sc, c in common.add_algs(common.wide_scope(lvl),
                                  lambda c: common.wide_algs(c, lvl)):
         out.append((sc, dict(c, delay={"mode": "choice", "arity": 3})))
@@ -61,7 +64,7 @@ def run(rep, tier, seed):
         for k, (sc, c) in enumerate(cs):
             if c.get("delay") and not common.keep(k, every):
                 c = dict(c)
-                c.pop("delay")
+                c.pop("delay", None)
             cs2.append((sc, c))
         cs = cs2
     e1.sweep(rep, cs, monitors_for, budgets, tie=True)
